@@ -172,11 +172,11 @@ def paths(body):
             alts = []
             conds = []
             for cond, b in arms:
-                conds.append(cond)
                 for q in paths(b):
-                    alts.append([("cond", c) for c in conds] + q)
+                    alts.append([("cond", c, False) for c in conds] + [("cond", cond, True)] + q)
+                conds.append(cond)
             for q in (paths(else_body) if else_body else [[]]):
-                alts.append([("cond", c) for c in conds] + q)
+                alts.append([("cond", c, False) for c in conds] + q)
             res = [p + a for p in res for a in alts]
         if len(res) > 64:
             raise ScanError("more than 64 paths through one loop body")
@@ -195,6 +195,8 @@ def py_idents(text):
         # keyword arguments  name=value  inside calls are not reads
         after = text[m.end():].lstrip()
         before = text[:m.start()].rstrip()
+        if after.startswith("(") and not m.group(2):
+            continue                      # the name of a called function is not data
         if after.startswith("=") and not after.startswith("==") and before.endswith(("(", ",")):
             continue
         names.append(m.group(1))
@@ -241,11 +243,8 @@ def top_level_assign(t):
     return None
 
 
-def scan_path(items, loopvar, outer_lists=()):
-    """One control-flow path of a loop body -> Term."""
-    T = Term()
-    T.num(T.cells, "<control>")
-    # names assigned (as scalars / whole objects) anywhere on the path, inner loop variables included
+def path_assigned(items):
+    """Scalars / whole objects assigned on a path (inner loop variables included)."""
     assigned = set()
     for it in items:
         if it[0] == "forhead":
@@ -257,6 +256,16 @@ def scan_path(items, loopvar, outer_lists=()):
                 assigned.add(m.group(1).strip())
             elif a and re.match(r"^[A-Za-z_]\w*$", a[0]):
                 assigned.add(a[0])
+    return assigned
+
+
+def scan_path(items, loopvar, carried=()):
+    """One control-flow path of a loop body -> Term.  `carried`: names that OTHER paths of the same loop (reachable in
+    the same call) assign: on this path they hold whatever an earlier iteration left."""
+    T = Term()
+    T.num(T.cells, "<control>")
+    own = path_assigned(items)
+    assigned = own | set(carried)
     shared_written = set()         # arrays written at an index that does not contain the loop variable
 
     def has_lv(idx):
@@ -395,7 +404,7 @@ def scan_path(items, loopvar, outer_lists=()):
             # a list that does not receive exactly one element per iteration does not hold frame i at position i
             c = T.num(T.cells, lst)
             T.ops.append("FSet %d (FAdd (FCell %d) (FConst 1))" % (c, c))
-    T.assigned = sorted(assigned)
+    T.assigned = sorted(own)
     T.shared_written = sorted(shared_written)
     return T
 
@@ -423,9 +432,28 @@ def scan_pyx_loop(src, function, bound, occurrence=0):
     body, nxt = parse_tree(ll, 0, ll[0][0])
     if nxt != len(ll):
         raise ScanError("loop body of %s not consumed" % function)
-    terms = [scan_path(p, m.group(1)) for p in paths(body)]
-    assigned = sorted(set(a for T in terms for a in T.assigned))
-    return m.group(1), m.group(2), terms, assigned
+    lv = m.group(1)
+    allp = paths(body)
+    everywhere = set()
+    for p in allp:
+        everywhere |= path_assigned(p)
+
+    def invariant(cond):
+        # the same in every iteration of one call: reads neither the loop variable nor anything the loop assigns
+        names = set(py_idents(cond))
+        return lv not in names and not (names & everywhere) and not re.search(r"\b%s\b" % re.escape(lv), cond)
+
+    def world(p):
+        return tuple((it[1], it[2]) for it in p if it[0] == "cond" and invariant(it[1]))
+    terms = []
+    for p in allp:
+        carried = set()
+        for q in allp:
+            if world(q) == world(p):
+                carried |= path_assigned(q)
+        terms.append(scan_path(p, lv, carried=carried))
+    assigned = sorted(everywhere)
+    return lv, m.group(2), terms, assigned
 
 
 def count_pranges(src):
